@@ -949,7 +949,7 @@ def run(tier):
                "moleculetype or the sub-directory include; thorough: all), sec (17 kinds: tables, overriding, valued defines, nested "
                "includes), mols (12 [molecules] entries, counts 0-3, repeated names), split ([molecules] spread over files); every case is "
                "rendered in 3 textual variants and read through absolute and relative paths; a case is distinct by its chunk sequence. "
-               "I->S: seeded random include trees (2-7 files in 5 directories, ./ and ../ paths, missing files, 3 macros) and real .top "
+               "I->S: seeded random include trees (2-6 files in 5 directories, ./ and ../ paths, missing files, 3 macros) and real .top "
                "files; a record is distinct by its input.")
     ck.assumptions = [
         "domain (DESIGN 4.8): conditionals balanced, not nested inside one file, only #include/#error inside a conditional; #define outside conditionals",
@@ -1061,6 +1061,7 @@ def run(tier):
 def replay(path):
     doc = json.loads(open(path).read())
     case = doc["case"]
+    c.REPLAYS = c.WORK / PROP / "replay_scratch"     # a Check object clears its replay directory: keep the stored cases
     ck = c.Check(PROP, "quick")
     if case["kind"] == "S->I replay":
         bad, _ = _replay_chunk((case["alphabet"], [(case["index"], {"c": case["c"], "exp": case["exp"], "impl": case["impl"]})], True))
